@@ -19,6 +19,13 @@
      KGet fi si x gs is    on the object x the getters return gs (field id, value) and the
                            IsSet methods return is (field id, bool)
 
+     KHist fi si vn vi     HISTORY: another instance of X was constructed and everything its fields
+                           refer to (slices, maps, []byte, inner structs) was edited in place;
+                           afterwards NewX() = vn and InitDefault() on &X{} gives vi (also: the
+                           second of two decoded list elements that carry no fields, after the
+                           first was edited)
+     KHistGet fi si x gs is  after the same history: getters / IsSet on the zero object x
+
    [mismatches_for] returns (case index, code):
      1   the model under go_rules and the implementation disagree        (correspondence)
      9   the model ran out of fuel                                       (correspondence)
@@ -36,6 +43,15 @@
          available                                                       (property oracle)
      10  a value of the wrong kind for a scalar or struct type was accepted
                                                                          (property oracle)
+     11  after an in-place edit of ANOTHER instance a freshly constructed struct does not
+         hold the declared defaults (instances share storage)            (property oracle)
+     12  as 11 / 13, and every affected field has a default written as a reference to a
+         container / struct / binary constant: the instances share the CONSTANT's storage
+                                                                         (property oracle)
+     13  after the same history the getter of an unset optional field does not return the
+         declared default                                                (property oracle)
+   The model has no heap: histories are judged by the oracles only (idl_rules, sign of zero
+   ignored).
    The oracles evaluate the IDL under [idl_rules]; struct literals constrain only the
    fields they mention ([VAny]).  Map entries and struct slots are compared as sets. *)
 From Coq Require Import List Bool ZArith NArith.
@@ -50,7 +66,9 @@ Inductive case :=
 | KConst (fi ci : Z) (v : cval)
 | KNew (fi si : Z) (vnew vinit : cval)
 | KInit (fi si : Z) (x y : cval)
-| KGet (fi si : Z) (x : cval) (getters : list (Z * cval)) (issets : list (Z * bool)).
+| KGet (fi si : Z) (x : cval) (getters : list (Z * cval)) (issets : list (Z * bool))
+| KHist (fi si : Z) (vnew vinit : cval)
+| KHistGet (fi si : Z) (x : cval) (getters : list (Z * cval)) (issets : list (Z * bool)).
 
 (* ---- equality of an expected value with an observed one.
    zs = true: +0 and -0 are the same double *)
@@ -207,6 +225,52 @@ Definition check_outcome (p : program) (acc : bool) : list N :=
    else if Bool.eqb (prog_ok go_rules p) acc then [] else [1%N]) ++
   (if acc && existsb (kind_errors p) (prog_files p) then [10%N] else []).
 
+(* ---- histories *)
+
+(* the default is an identifier standing for a container / struct-like / binary constant: the
+   generated code assigns the constant's own slice / map / pointer *)
+Definition shares_constant (fd : field) : bool :=
+  match fd_default fd with
+  | Some (CIdent s _) =>
+    negb (is_true s || is_false s) &&
+    (is_container_category (fd_cat fd) || is_struct_like_category (fd_cat fd) || is_binary (fd_cat fd))
+  | _ => false
+  end.
+
+Definition verdict (code : N) (bad : list field) : list N :=
+  match bad with
+  | [] => []
+  | _ => if forallb shares_constant bad then [12%N] else [code]
+  end.
+
+(* fields of s whose slot in the observed struct differs from the expected one *)
+Fixpoint bad_fields (fds : list field) (exp : list (Z * cval)) (obs : cval) : list field :=
+  match fds, exp with
+  | fd :: fr, e :: er =>
+    (match get_slot obs (fst e) with
+     | Some o => if veq true (snd e) o then [] else [fd]
+     | None => [fd]
+     end) ++ bad_fields fr er obs
+  | _, _ => []
+  end.
+
+Definition check_hist (p : program) (f : file) (s : struct_like) (vn vi : cval) : list N :=
+  match new_struct idl_rules (prog_fuel p) p f s with
+  | Ok (VStruct exp) => verdict 11%N (bad_fields (sl_fields s) exp vn ++ bad_fields (sl_fields s) exp vi)
+  | _ => []
+  end.
+
+Definition check_hist_get (p : program) (f : file) (s : struct_like)
+           (getters : list (Z * cval)) (issets : list (Z * bool)) : list N :=
+  verdict 13%N
+    (flat_map (fun fd =>
+       match field_dv idl_rules p f fd,
+             option_map snd (find (fun e => fst e =? fd_id fd) getters),
+             option_map snd (find (fun e => fst e =? fd_id fd) issets) with
+       | Ok dv, Some g, Some false => if veq true (default_var fd dv) g then [] else [fd]
+       | _, _, _ => []
+       end) (sl_fields s)).
+
 Definition check_case (p : program) (c : case) : list N :=
   let n := prog_fuel p in
   match c with
@@ -248,6 +312,24 @@ Definition check_case (p : program) (c : case) : list N :=
     | Some f =>
       match nthZ (struct_likes f) si with
       | Some s => check_get p f s x gs is
+      | None => [1%N]
+      end
+    | None => [1%N]
+    end
+  | KHist fi si vn vi =>
+    match file_at p fi with
+    | Some f =>
+      match nthZ (struct_likes f) si with
+      | Some s => check_hist p f s vn vi
+      | None => [1%N]
+      end
+    | None => [1%N]
+    end
+  | KHistGet fi si x gs is =>
+    match file_at p fi with
+    | Some f =>
+      match nthZ (struct_likes f) si with
+      | Some s => check_hist_get p f s gs is
       | None => [1%N]
       end
     | None => [1%N]
